@@ -235,12 +235,12 @@ class StochasticEvents:
             if max_len is not None and duration > max_len:
                 duration = max_len
 
-            if force_feasible:
-                max_feasible = max_battery_power * duration
-                energy_delivered = np.minimum(max_feasible, energy_delivered)
-
             departure = int((arrival + duration) * period_per_hour)
             arrival = int(arrival * period_per_hour)
+
+            if force_feasible:
+                max_feasible = max_battery_power * (departure - arrival) / period_per_hour
+                energy_delivered = np.minimum(max_feasible, energy_delivered)
             session_id = f"session_{row_idx}"
             # By default a new station is created for each EV.
             # Infinite space assumption.
